@@ -70,11 +70,11 @@ def seeded_table() -> str:
                     f"{', '.join(dets) if dets else '**not detected**'} | "
                     f"{hist or 'detected'} |")
     undet = sum(1 for v in desc.values() if v[2].startswith("NOT DETECTED"))
-    head = (f"{n} seeded changes (six rounds: two per property in rounds 1 "
+    head = (f"{n} seeded changes (seven rounds: two per property in rounds 1 "
             f"and 2, two each for the 15 properties with a round-2 miss in "
             f"round 3, for the 13 properties with a round-3 miss in round "
             f"4 and for eight properties - those with a round-4 miss plus "
-            f"C03 and C07 - in round 5, one each for the four properties with the fewest changes, C01 C08 C14 C16, in round 6); {det} are detected by the check of their own "
+            f"C03 and C07 - in round 5, one each for the four properties with the fewest changes, C01 C08 C14 C16, in round 6 and for C02 C04 C20 in round 7); {det} are detected by the check of their own "
             f"property at the quick tier with the final machinery; "
             f"{missed_first - undet} were missed (or only caught by another "
             f"property's check, or hung the check) when first evaluated and "
